@@ -771,3 +771,89 @@ Proof.
   apply wf2_run_app in Hwf as [W1 _]. pose proof (J_run e S K vs G HJ W1) as [_ _ _ Hw _ _ _ _]. fold G' in Hw.
   rewrite <- Hw. apply (in_map snd) in H4. exact H4.
 Qed.
+
+(* ---------- the acked counter: a datagram is counted as acknowledged only in such a step ---------- *)
+Lemma timeout_loop_acked strict now snap : forall c c' o, timeout_loop strict c now snap = (c', o) -> c_acked c' = c_acked c.
+Proof.
+  induction snap as [|[s t] r IH]; intros c c' o E; cbn [timeout_loop] in E.
+  - injection E as <- <-. reflexivity.
+  - dpair E c1 o1 E1. destruct (timeout_loop strict c1 now r) as [c2 o2] eqn:E2. injection E as <- <-.
+    rewrite (IH _ _ _ E2).
+    match type of E1 with (if ?b then _ else _) = _ => destruct b end;
+      [apply resolve_packs in E1 as (_ & _ & A & _); lia|injection E1 as <- <-; reflexivity].
+Qed.
+
+Lemma ack_loop_acked h snap : forall c c' o, ack_loop c h snap = (c', o) -> c_acked c < c_acked c' ->
+  exists s t, In (s, t) snap /\ hdr_acks (h_ack h) (h_ackbits h) s = true.
+Proof.
+  induction snap as [|[s t] r IH]; intros c c' o E Hlt; cbn [ack_loop] in E.
+  - injection E as <- <-. lia.
+  - dpair E c1 o1 E1. destruct (ack_loop c1 h r) as [c2 o2] eqn:E2. injection E as <- <-.
+    destruct (hdr_acks (h_ack h) (h_ackbits h) s) eqn:Ea; [exists s, t; split; [left; reflexivity|exact Ea]|].
+    assert (A1 : c_acked c1 = c_acked c).
+    { destruct (_ >? _); [apply resolve_packs in E1 as (_ & _ & A & _); lia|injection E1 as <- <-; reflexivity]. }
+    destruct (IH _ _ _ E2 ltac:(lia)) as (s' & t' & Hi & Ha). exists s', t'. split; [right; exact Hi|exact Ha].
+Qed.
+
+Lemma recv_acked c now d orcs c' o : recv c now d orcs = (c', o) -> c_acked c < c_acked c' ->
+  opens c d = true /\ exists s t, In (s, t) (c_packs c) /\ hdr_acks (h_ack (d_hdr d)) (h_ackbits (d_hdr d)) s = true.
+Proof.
+  unfold recv, opens. intros E Hlt.
+  destruct (keyless_refuses c (d_hdr d)); [injection E as <- <-; cbn in Hlt; lia|].
+  destruct (open_dgram (c_key c) d) as [ms|]; [|injection E as <- <-; cbn in Hlt; lia].
+  destruct (bf_insert (c_bf_pkt c) _) as [bf|]; [|injection E as <- <-; cbn in Hlt; lia].
+  match type of E with context [handle_ack_bits ?c0 _] => set (cc := c0) in E end.
+  destruct (handle_ack_bits cc (d_hdr d)) as [c1 o1] eqn:E1.
+  destruct (recv_msgs c1 now ms orcs) as [c2 o2] eqn:E2. injection E as <- <-.
+  split; [reflexivity|]. apply recv_msgs_ack in E2 as [_ A2 _ _ _]. rewrite A2 in Hlt.
+  unfold handle_ack_bits in E1. exact (ack_loop_acked _ _ _ _ _ E1 Hlt).
+Qed.
+
+Theorem step_acked e c x c' o : step e c x = (c', o) -> c_acked c < c_acked c' ->
+  exists a0 d, pre_recv c x = Some (a0, d) /\ opens a0 d = true /\
+    exists s t, In (s, t) (c_packs a0) /\ hdr_acks (h_ack (d_hdr d)) (h_ackbits (d_hdr d)) s = true.
+Proof.
+  intros E Hlt. destruct x; cbn [step pre_recv] in *.
+  - apply send_ack in E as [_ A _ _ _]. lia.
+  - unfold client_tick in E.
+    destruct (client_update c now) as [c0 o0] eqn:E0. cbn [fst].
+    pose proof (client_update_ack _ _ _ _ E0) as [_ A0 _ _ _].
+    destruct (status_eqb (c_status c0) DROPPED); [injection E as <- <-; lia|].
+    match type of E with context [match ?y with (_, _) => _ end] => destruct y as [c1 o1] eqn:E1 end.
+    assert (Hfin : c_acked c' = c_acked c1).
+    { destruct (raised o1); [injection E as <- <-; reflexivity|].
+      destruct (_ >? _); [|injection E as <- <-; reflexivity].
+      destruct (build_packet e c1 now) as [c2 pk] eqn:E2.
+      destruct (check_timeout false c2 now) as [c3 o3] eqn:E3. injection E as <- <-.
+      apply build_packet_packs in E2 as (A2 & _). unfold check_timeout in E3. apply timeout_loop_acked in E3. congruence. }
+    destruct r as [|er|d orcs]; try (injection E1 as <- <-; lia).
+    destruct (recv c0 now d orcs) as [c'' o''] eqn:Er. injection E1 as <- <-.
+    destruct (recv_acked _ _ _ _ _ _ Er ltac:(lia)) as [Ho Hs]. exists c0, d. auto.
+  - exfalso. unfold server_tick in E. destruct (_ >? _); [|injection E as <- <-; lia].
+    destruct (build_packet e c now) as [c1 pk] eqn:E1.
+    destruct (check_timeout true c1 now) as [c2 o2] eqn:E2. injection E as <- <-.
+    apply build_packet_packs in E1 as (A1 & _). unfold check_timeout in E2. apply timeout_loop_acked in E2. lia.
+  - destruct (recv_acked _ _ _ _ _ _ E Hlt) as [Ho Hs]. exists c, d. auto.
+  - exfalso. injection E as <- <-. unfold disconnect in Hlt. destruct (_ || _); cbn in Hlt; lia.
+  - exfalso. injection E as <- <-. destruct which as [|[[q|q|]|[q|q|]|]|q]; cbn in Hlt; lia.
+  - exfalso. injection E as <- <-. cbn in Hlt. lia.
+  - exfalso. injection E as <- <-. cbn in Hlt. lia.
+  - exfalso. injection E as <- <-. cbn in Hlt. lia.
+Qed.
+
+(* whenever A's acked counter goes up, a datagram B has accepted is being resolved *)
+Theorem ack_counted_means_accepted e S K G vs x l a' o :
+  J S K G -> wf2_run e G (vs ++ [(NA x, l)]) ->
+  let G' := grun e G vs in
+  step e (nA (g_net G')) x = (a', o) -> c_acked (nA (g_net G')) < c_acked a' ->
+  exists a0 d s t i dA,
+    pre_recv (nA (g_net G')) x = Some (a0, d) /\ opens a0 d = true /\ acked_accepted G' a0 d /\
+    In (s, t) (c_packs a0) /\ hdr_acks (h_ack (d_hdr d)) (h_ackbits (d_hdr d)) s = true /\
+    s = wire i /\ In i (idx_acc (g_B G')) /\ In (i, dA) (g_AB G') /\ h_seq (d_hdr dA) = s /\ In dA (g_accB G').
+Proof.
+  intros HJ Hwf G' E Hlt.
+  destruct (step_acked _ _ _ _ _ E Hlt) as (a0 & d & Hpre & Hop & s & t & Hpend & Hack).
+  pose proof (acked_means_accepted e S K G vs x l a0 d HJ Hwf Hpre Hop) as Hacc. fold G' in Hacc.
+  destruct (Hacc s t Hpend Hack) as (i & dA & H1 & H2 & H3 & H4 & H5 & H6).
+  exists a0, d, s, t, i, dA. repeat split; assumption.
+Qed.
